@@ -856,6 +856,11 @@ class Exec:
                 f = self.find_impl(segs[-2], None, segs[-3])
                 if f is not None:
                     cands = self.funcs.get(f.name + "::" + segs[-1])
+            if not cands and len(segs) >= 2 and not name.startswith("<"):
+                # associated constant of a type: `Type::NAME` is dumped as `module::<impl at ..>::NAME`
+                hits = [k for k in self.funcs if k.endswith(">::" + segs[-1]) and (impl_info(k) or (None, None))[1] == segs[-2]]
+                if len(hits) == 1:
+                    cands = self.funcs.get(hits[0])
         if not cands:
             km = re.fullmatch(r"(?:core::num::<impl )?([iu](?:8|16|32|64|128|size))>?::(MAX|MIN|BITS)", name.strip())
             if km:
@@ -1211,4 +1216,5 @@ def norm_fn(func):
     s = s.replace("'_, ", "").replace("<'_>", "")
     s = re.sub(r"<impl \[[^\]]*\]>", "<impl [T]>", s)
     s = re.sub(r"^Box::<impl [^<>]*>::", "Box::", s)          # Box::<impl Trait + 'static>::new
+    s = re.sub(r"::<impl (?:std::)?io::[^<>]*>::", "::", s)   # GzDecoder::<impl io::BufRead + 'static>::new
     return s
